@@ -127,7 +127,7 @@ def _costs():
         return {}
 
 
-QUICK_CPU_CAP = {'C01': 600.0, 'C03': 150.0, 'C05': 600.0, 'C18': 60.0, 'C02': 60.0, 'C19': 60.0, 'C07': 40.0, 'C10': 60.0}
+QUICK_CPU_CAP = {'C01': 600.0, 'C03': 150.0, 'C05': 300.0, 'C18': 60.0, 'C02': 60.0, 'C19': 60.0, 'C07': 40.0, 'C10': 60.0}
 # CPU seconds per shape measured with the C19 harness (lib/shape_costs.json); harnesses that do less per path afford more
 
 
@@ -243,6 +243,15 @@ PAIRS_CURATED = [
     (cat([R, ('plus', 'allchar')]), cat([R, 'all'])), (cat([R, 'all']), cat([R, ('plus', 'allchar')])), (cat([C, C, 'all', C]), cat([C, 'all', C, C])),
     (cat(['all', C, C]), cat(['all', C, 'all', C])), (cat([C, 'all', C, 'all', C]), cat([C, 'all', C])),
 ]
+
+
+def pair_cost(r, s2):
+    import json, os
+    try:
+        pc = json.load(open(os.path.join(os.path.dirname(os.path.abspath(__file__)), 'pair_costs.json')))
+    except Exception:
+        pc = {}
+    return pc.get('%s <= %s' % (show(r), show(s2)), 0)
 
 
 def pairs(tier, seed, cap):
